@@ -1,4 +1,5 @@
 import LenaModel.Model.C08
+import LenaModel.Model.C08Spec
 /-! # C08 — helper lemmas: dictionary primitives, well-formedness, the path algebra of
 `ucSet` / `delPath` / `updRec`, splitting of dotted strings -/
 namespace Lena.C08
@@ -7,10 +8,15 @@ mutual
 def Val.beq : Val → Val → Bool
   | .leaf a, .leaf b => decide (a = b)
   | .dict a, .dict b => beqEntries a b
+  | .list a, .list b => beqList a b
   | _, _ => false
 def beqEntries : Entries → Entries → Bool
   | [], [] => true
   | (k, v) :: r, (k', v') :: r' => decide (k = k') && Val.beq v v' && beqEntries r r'
+  | _, _ => false
+def beqList : List Val → List Val → Bool
+  | [], [] => true
+  | v :: r, v' :: r' => Val.beq v v' && beqList r r'
   | _, _ => false
 end
 
@@ -18,13 +24,23 @@ mutual
 theorem Val.beq_iff : ∀ a b : Val, Val.beq a b = true ↔ a = b
   | .leaf a, .leaf b => by simp [Val.beq]
   | .dict a, .dict b => by simp [Val.beq, beqEntries_iff a b]
+  | .list a, .list b => by simp [Val.beq, beqList_iff a b]
   | .leaf _, .dict _ => by simp [Val.beq]
+  | .leaf _, .list _ => by simp [Val.beq]
   | .dict _, .leaf _ => by simp [Val.beq]
+  | .dict _, .list _ => by simp [Val.beq]
+  | .list _, .leaf _ => by simp [Val.beq]
+  | .list _, .dict _ => by simp [Val.beq]
 theorem beqEntries_iff : ∀ a b : Entries, beqEntries a b = true ↔ a = b
   | [], [] => by simp [beqEntries]
   | (k, v) :: r, (k', v') :: r' => by simp [beqEntries, Val.beq_iff v v', beqEntries_iff r r', and_assoc]
   | [], _ :: _ => by simp [beqEntries]
   | _ :: _, [] => by simp [beqEntries]
+theorem beqList_iff : ∀ a b : List Val, beqList a b = true ↔ a = b
+  | [], [] => by simp [beqList]
+  | v :: r, v' :: r' => by simp [beqList, Val.beq_iff v v', beqList_iff r r']
+  | [], _ :: _ => by simp [beqList]
+  | _ :: _, [] => by simp [beqList]
 end
 
 instance : DecidableEq Val := fun a b =>
@@ -79,9 +95,13 @@ mutual
 def Val.WF : Val → Prop
   | .leaf _ => True
   | .dict es => EntriesWF es
+  | .list xs => ListWF xs
 def EntriesWF : Entries → Prop
   | [] => True
   | (k, v) :: r => lookup r k = none ∧ v.WF ∧ EntriesWF r
+def ListWF : List Val → Prop
+  | [] => True
+  | v :: r => v.WF ∧ ListWF r
 end
 
 theorem lookup_eraseKey_same (d : Entries) (k : String) (h : EntriesWF d) : lookup (eraseKey d k) k = none := by
@@ -102,6 +122,8 @@ theorem lookup_eraseKey_same (d : Entries) (k : String) (h : EntriesWF d) : look
 
 @[simp] theorem getPath_leaf_cons (a : Leaf) (k : String) (p : List String) : getPath (.leaf a) (k :: p) = none := rfl
 
+@[simp] theorem getPath_list_cons (xs : List Val) (k : String) (p : List String) : getPath (.list xs) (k :: p) = none := rfl
+
 theorem getPath_dict_cons (es : Entries) (k : String) (p : List String) :
     getPath (.dict es) (k :: p) = (lookup es k).bind (fun w => getPath w p) := by
   simp only [getPath]
@@ -114,13 +136,6 @@ theorem getPath_singleton (es : Entries) (k : String) : getPath (.dict es) [k] =
 theorem getPath_empty_cons (k : String) (p : List String) : getPath (.dict []) (k :: p) = none := by
   simp [getPath_dict_cons]
 
-/-- the sub-dictionary `UpdateContext.__call__` descends into: `d[k]` if it is a dictionary, a new `{}`
-otherwise -/
-def subDict (d : Entries) (k : String) : Entries :=
-  match lookup d k with
-  | some (.dict e) => e
-  | _ => []
-
 theorem getPath_subDict (d : Entries) (k k' : String) (p : List String) :
     getPath (.dict (subDict d k)) (k' :: p) = getPath (.dict d) (k :: k' :: p) := by
   rw [getPath_dict_cons d]
@@ -130,6 +145,7 @@ theorem getPath_subDict (d : Entries) (k k' : String) (p : List String) :
   | some w =>
     cases w with
     | leaf a => simp [getPath_dict_cons]
+    | list xs => simp [getPath_dict_cons]
     | dict e => simp
 
 theorem ucSet_cons2 (rec : Bool) (d : Entries) (k k' : String) (r : List String) (u : Val) :
@@ -212,6 +228,7 @@ theorem getPath_delPath_same :
     | some w =>
       cases w with
       | leaf a => simp [getPath_dict_cons, h]
+      | list xs => simp [getPath_dict_cons, h]
       | dict e =>
         simp only
         rw [getPath_dict_cons, lookup_setKey_same]
@@ -247,6 +264,7 @@ theorem getPath_delPath_frame :
     | some w =>
       cases w with
       | leaf a => rfl
+      | list xs => rfl
       | dict e =>
         simp only
         by_cases hk : k' = k
@@ -278,12 +296,6 @@ theorem lookup_updRec : ∀ (o : Entries), EntriesWF o → ∀ (d : Entries) (k 
       simp [hw.1, lookup_setKey_same]
     · simp only [hk, if_false]
       rw [lookup_setKey_other _ _ _ _ (Ne.symm hk)]
-
-/-- the one-key-per-level dictionary `{k1: {k2: … {kn: v}}}` of a non-empty path (what `str_to_dict`
-builds); for the empty path the value itself -/
-def nestPath : List String → Val → Val
-  | [], v => v
-  | k :: r, v => .dict [(k, nestPath r v)]
 
 theorem nestList_eq : ∀ (p : List String) (v : Val), p ≠ [] → nestList p v = .ok (nestPath p v)
   | [], _, h => absurd rfl h
@@ -325,6 +337,9 @@ theorem updRec_nestPath : ∀ (p : List String) (d : Entries) (u : Val) (k : Str
     | some w =>
       cases w with
       | leaf a =>
+        simp only [updItem]
+        rw [updRec_nestPath r [] u k']
+      | list xs =>
         simp only [updItem]
         rw [updRec_nestPath r [] u k']
       | dict e =>
@@ -430,9 +445,31 @@ theorem walk_eq_getPath : ∀ (p : List String) (d : Entries), walk d (p.map Lea
     | some w =>
       cases w with
       | leaf a => simp
+      | list xs => simp
       | dict e =>
         have := walk_eq_getPath (k' :: r) e
         simp only [List.map_cons] at this
         simp [this]
+
+/-! ## the Boolean forms of the hypotheses (executed by the driver) decide them -/
+
+theorem wfPathB_iff (p : List String) : wfPathB p = true ↔ WFPath p := by
+  simp only [wfPathB, WFPath, List.all_eq_true, Bool.and_eq_true, bne_iff_ne, ne_eq, Bool.not_eq_true',
+    List.contains_eq_mem, decide_eq_false_iff_not]
+
+mutual
+theorem valWFB_iff : ∀ v : Val, valWFB v = true ↔ v.WF
+  | .leaf a => by simp [valWFB, Val.WF]
+  | .dict es => by simp only [valWFB, Val.WF]; exact entriesWFB_iff es
+  | .list xs => by simp only [valWFB, Val.WF]; exact listWFB_iff xs
+theorem entriesWFB_iff : ∀ es : Entries, entriesWFB es = true ↔ EntriesWF es
+  | [] => by simp [entriesWFB, EntriesWF]
+  | (k, v) :: r => by
+    simp only [entriesWFB, EntriesWF, Bool.and_eq_true, Option.isNone_iff_eq_none, valWFB_iff v, entriesWFB_iff r,
+      and_assoc]
+theorem listWFB_iff : ∀ xs : List Val, listWFB xs = true ↔ ListWF xs
+  | [] => by simp [listWFB, ListWF]
+  | v :: r => by simp only [listWFB, ListWF, Bool.and_eq_true, valWFB_iff v, listWFB_iff r]
+end
 
 end Lena.C08
